@@ -53,6 +53,11 @@ pub struct Scn {
     /// a thread that calls await_start_of_shutdown at this time
     #[serde(default)]
     pub start_waiter_ms: Option<u64>,
+    /// pools started in the same group while the scenario runs (e.g. after another pool has been
+    /// shut down on its own, so that its slot in the group's collection is reused):
+    /// (start time ms, permanent workers, linger ms); their pool index follows the initial pools
+    #[serde(default)]
+    pub late_pools: Vec<(u64, usize, u64)>,
 }
 
 pub struct C29;
@@ -83,7 +88,7 @@ impl Prop for C29 {
         let permanent: Vec<usize> = (0..np).map(|_| range(r, 0, 2) as usize).collect();
         let linger_ms: Vec<u64> = (0..np).map(|_| *pick(r, &lingers)).collect();
         let ns = range(r, 1, 4) as usize;
-        let mut submitters = vec![];
+        let mut submitters: Vec<Vec<Op>> = vec![];
         for _ in 0..ns {
             let nops = range(r, 1, 3) as usize;
             let mut ops = vec![];
@@ -99,8 +104,30 @@ impl Prop for C29 {
             }
             submitters.push(ops);
         }
+        let mut late_pools: Vec<(u64, usize, u64)> = vec![];
+        if chance(r, 20) {
+            late_pools.push((1 + dur_grid(r, 1000), range(r, 0, 2) as usize, *pick(r, &lingers)));
+            // some submissions go to the late pool
+            for ops in submitters.iter_mut() {
+                for o in ops.iter_mut() {
+                    if chance(r, 35) {
+                        o.pool = np;
+                        o.gap_ms += if chance(r, 70) { late_pools[0].0 } else { 0 };
+                    }
+                }
+            }
+        }
         let mut shutdowns = vec![];
-        if chance(r, 40) {
+        if !late_pools.is_empty() && chance(r, 60) {
+            // an initial pool is shut down on its own before the late pool starts, and possibly
+            // once more afterwards (a repeated call is legal)
+            let at = late_pools[0].0;
+            let p = r.below(np as u64);
+            shutdowns.push(Shutdown { at_ms: r.below(at), what: format!("pool{p}") });
+            if chance(r, 60) {
+                shutdowns.push(Shutdown { at_ms: at + 1 + dur_grid(r, 1000), what: format!("pool{p}") });
+            }
+        } else if chance(r, 40) {
             let l = linger_ms[0];
             let what = match r.below(3) {
                 0 => "group".to_string(),
@@ -135,6 +162,7 @@ impl Prop for C29 {
             oneshots: if chance(r, 25) { (0..range(r, 1, 2)).map(|_| (dur_grid(r, 1000), dur_grid(r, 1000))).collect() } else { vec![] },
             early_awaiter_ms: if chance(r, 30) { Some(dur_grid(r, 1000)) } else { None },
             start_waiter_ms: if chance(r, 20) { Some(dur_grid(r, 1000)) } else { None },
+            late_pools,
         }
     }
 
@@ -249,6 +277,18 @@ impl Prop for C29 {
             c.start_waiter_ms = None;
             out.push(c);
         }
+        if !s.late_pools.is_empty() && s.submitters.iter().flatten().all(|o| o.pool < s.permanent.len()) {
+            let mut c = s.clone();
+            c.late_pools.clear();
+            out.push(c);
+        }
+        for i in 0..s.shutdowns.len() {
+            if s.shutdowns.len() > 1 {
+                let mut c = s.clone();
+                c.shutdowns.remove(i);
+                out.push(c);
+            }
+        }
         if s.clock != "des" {
             let mut c = s.clone();
             c.clock = "des".into();
@@ -261,7 +301,7 @@ impl Prop for C29 {
         rec.preemptions > 0 || rec.clock_preemptions > 0
     }
     fn rule() -> String {
-        "one execution = one seeded scenario (pools with 0-2 permanent workers, linger 0/1ms/1s/15s, 1-4 submitters x 1-3 submit/submit_or_spawn calls on a time grid aligned with the linger value, optional pool/group shutdown actor, optional respawnable group thread that exits prematurely, one-shot group threads, a thread waiting in await_shutdown / await_start_of_shutdown before any shutdown, optional spurious wake-ups and thread-spawn failures) under one seeded schedule (random or PCT depth 1-4; DES or eager clock). Non-trivial = at least one preemption of a runnable task or one eager timer firing; distinct = distinct (scenario, recorded schedule) hash".into()
+        "one execution = one seeded scenario (pools with 0-2 permanent workers, linger 0/1ms/1s/15s, 1-4 submitters x 1-3 submit/submit_or_spawn calls on a time grid aligned with the linger value, optional pool/group shutdown actors (a pool may be shut down twice), optionally a pool started while the scenario runs - after another pool of the group was shut down on its own, so that its slot in the group's collection is reused -, optional respawnable group thread that exits prematurely, one-shot group threads, a thread waiting in await_shutdown / await_start_of_shutdown before any shutdown, optional spurious wake-ups and thread-spawn failures) under one seeded schedule (random or PCT depth 1-4; DES or eager clock). Non-trivial = at least one preemption of a runnable task or one eager timer firing; distinct = distinct (scenario, recorded schedule) hash".into()
     }
     fn assumptions() -> Vec<String> {
         vec![
@@ -280,7 +320,7 @@ impl Prop for C29 {
         "E1 simrt-threads"
     }
     fn expected_probes() -> Vec<&'static str> {
-        vec!["condvar_wait_timed_out", "c29_respawned_after_premature_exit", "c29_early_awaiter_returned", "c29_submit_rejected_after_shutdown", "c29_spawn_failed", "c29_task_ran_after_pool_shutdown", "c29_submit_blocked_until_shutdown"]
+        vec!["condvar_wait_timed_out", "c29_respawned_after_premature_exit", "c29_early_awaiter_returned", "c29_submit_rejected_after_shutdown", "c29_spawn_failed", "c29_task_ran_after_pool_shutdown", "c29_submit_blocked_until_shutdown", "c29_late_pool_started"]
     }
 }
 
@@ -306,27 +346,22 @@ fn run(scn: &Scn) {
     let late_activity = Arc::new(AtomicU32::new(0));
     let recs: Arc<std::sync::Mutex<Vec<OpRec>>> = Arc::new(std::sync::Mutex::new(vec![]));
     // event stamp at which a shutdown call of pool p (or the group) returned
-    let pool_down: Arc<Vec<AtomicU64>> = Arc::new((0..scn.permanent.len()).map(|_| AtomicU64::new(u64::MAX)).collect());
+    let n_pools = scn.permanent.len() + scn.late_pools.len();
+    let pool_down: Arc<Vec<AtomicU64>> = Arc::new((0..n_pools).map(|_| AtomicU64::new(u64::MAX)).collect());
 
     // event stamp at which the first group.shut_down() was *invoked*
     let group_down_invoked = Arc::new(AtomicU64::new(u64::MAX));
     let group = ThreadGroup::new();
-    let mut pools = vec![];
+    // pool slots (plain std mutexes: harness bookkeeping, not scheduling points)
+    type Slot = std::sync::Mutex<Option<Arc<quandary::thread::ThreadPool>>>;
+    let pools: Arc<Vec<Slot>> = Arc::new((0..n_pools).map(|_| std::sync::Mutex::new(None)).collect());
     for p in 0..scn.permanent.len() {
         match group.start_pool(Some(format!("p{p}")), scn.permanent[p], Duration::from_millis(scn.linger_ms[p])) {
-            Ok(pool) => pools.push(Some(pool)),
-            Err(Error::Io(_)) => {
-                simrt::probe("c29_spawn_failed");
-                pools.push(None)
-            }
-            Err(Error::ShuttingDown) => {
-                viol("start-pool-rejected", "start_pool returned ShuttingDown before any shutdown".into());
-                pools.push(None)
-            }
+            Ok(pool) => *pools[p].lock().unwrap() = Some(pool),
+            Err(Error::Io(_)) => simrt::probe("c29_spawn_failed"),
+            Err(Error::ShuttingDown) => viol("start-pool-rejected", "start_pool returned ShuttingDown before any shutdown".into()),
         }
     }
-    let pools = Arc::new(pools);
-
     // total simulated time after which everything submitted has had time to run
     let mut horizon_ms = 0u64;
     let mut hs = vec![];
@@ -344,7 +379,7 @@ fn run(scn: &Scn) {
                     simrt::thread::sleep(Duration::from_millis(op.gap_ms));
                 }
                 let task = first + k;
-                let Some(pool) = pools[op.pool].as_ref() else { continue };
+                let Some(pool) = pools[op.pool].lock().unwrap().clone() else { continue };
                 let (started, finished, after_await, late) = (started.clone(), finished.clone(), after_await.clone(), late.clone());
                 let body_ms = op.body_ms;
                 let body = move || {
@@ -393,9 +428,33 @@ fn run(scn: &Scn) {
                 }
             } else {
                 let p: usize = sd.what.trim_start_matches("pool").parse().unwrap_or(0);
-                if let Some(Some(pool)) = pools.get(p) {
+                let pool = pools.get(p).and_then(|s| s.lock().unwrap().clone());
+                if let Some(pool) = pool {
                     pool.shut_down();
                     pool_down[p].fetch_min(simrt::event("pool_shut_down_returned", p as u64, 0), SeqCst);
+                }
+            }
+        }));
+    }
+
+    for (k, (at, permanent, linger)) in scn.late_pools.iter().enumerate() {
+        horizon_ms = horizon_ms.max(*at);
+        let (group, pools, gdi, at, permanent, linger, ix) = (group.clone(), pools.clone(), group_down_invoked.clone(), *at, *permanent, *linger, scn.permanent.len() + k);
+        hs.push(shuttle::thread::spawn(move || {
+            simrt::thread::sleep(Duration::from_millis(at));
+            let invoked = simrt::stamp();
+            match group.start_pool(Some(format!("late{k}")), permanent, Duration::from_millis(linger)) {
+                Ok(pool) => {
+                    simrt::probe("c29_late_pool_started");
+                    *pools[ix].lock().unwrap() = Some(pool)
+                }
+                Err(Error::Io(_)) => simrt::probe("c29_spawn_failed"),
+                Err(Error::ShuttingDown) => {
+                    // legal only if a group shutdown had been invoked by the time the call returned
+                    let returned = simrt::stamp();
+                    if gdi.load(SeqCst) > returned {
+                        viol("start-pool-rejected", format!("start_pool (invoked at event {invoked}) returned ShuttingDown at event {returned} although no group shutdown had been invoked by then"));
+                    }
                 }
             }
         }));
@@ -475,7 +534,7 @@ fn run(scn: &Scn) {
     // Let the scenario play out, then shut the group down *before* joining the
     // submitters: a submitter blocked in `submit` on a pool without workers is
     // legal and is released only by shutdown.
-    let max_linger = scn.linger_ms.iter().copied().max().unwrap_or(0);
+    let max_linger = scn.linger_ms.iter().copied().chain(scn.late_pools.iter().map(|l| l.2)).max().unwrap_or(0);
     simrt::thread::sleep(Duration::from_millis(horizon_ms + max_linger + 2_000));
     let blocked_before = recs.lock().unwrap().len();
     group_down_invoked.fetch_min(simrt::stamp(), SeqCst);
